@@ -86,11 +86,73 @@ func runC07(c *Ctx) {
 	isActionSet := func(v ssa.Value) bool { return strings.HasSuffix(PathOf(v), ".ActionSet") }
 	if enc != nil {
 		n := 0
-		for _, ci := range callsIn(enc, func(nm string, cc *ssa.CallCommon) bool {
+		// Encode and the helpers it was split into (actionMask(set), encodeEntry(…, actions)), parameters bound
+		encParts, encRestore := boundParts(enc, 1)
+		defer encRestore()
+		callsInEnc := func(m func(string, *ssa.CallCommon) bool) (out []ssa.CallInstruction) {
+			for _, part := range encParts {
+				c.Analysed(part)
+				out = append(out, callsIn(part, m)...)
+			}
+			return
+		}
+		// canonicalFiltered: the slice is built by a helper that appends the elements of UpsertActions, in
+		// table order, each behind ContainsAction(<this packet's ActionSet>, element)
+		canonicalFiltered := func(v ssa.Value) bool {
+			hc, isC := strip(v).(*ssa.Call)
+			if !isC {
+				return false
+			}
+			g := moduleHelperWithBody(&hc.Call)
+			if g == nil {
+				return false
+			}
+			c.Analysed(g)
+			res := make([]ssa.Value, len(hc.Call.Args))
+			for i, a := range hc.Call.Args {
+				res[i] = strip(a)
+			}
+			nApp, all := 0, true
+			withBinding(g, res, func() {
+				for _, ap := range callsIn(g, func(nm string, cc *ssa.CallCommon) bool {
+					b, isB := cc.Value.(*ssa.Builtin)
+					return isB && b.Name() == "append"
+				}) {
+					args := callArgs(ap.Common())
+					if len(args) != 2 {
+						all = false
+						continue
+					}
+					nApp++
+					el := args[1]
+					src := elemOf(el)
+					if src == nil || !isGlobalNamed(src, "UpsertActions") {
+						all = false
+						continue
+					}
+					gd, ns := MustCross(ap, func(e Edge, cond ssa.Value, truth bool) bool {
+						cl := callValue(cond)
+						if cl == nil || !truth || !strings.HasSuffix(calleeName(&cl.Call), "playerinfo.ContainsAction") {
+							return false
+						}
+						return isActionSet(cl.Call.Args[0]) && strip(cl.Call.Args[1]) == strip(el)
+					})
+					if !gd || ns == 0 {
+						all = false
+					}
+				}
+			})
+			return all && nApp > 0
+		}
+		for _, ci := range callsInEnc(func(nm string, cc *ssa.CallCommon) bool {
 			return cc.IsInvoke() && cc.Method.Name() == "Encode" && strings.HasSuffix(cc.Value.Type().String(), "playerinfo.UpsertAction")
 		}) {
 			n++
 			src := elemOf(ci.Common().Value)
+			if src != nil && canonicalFiltered(src) {
+				c.Check("canonical-order", "action.Encode-receiver@Upsert.Encode", ci, true, "")
+				continue
+			}
 			canon := src != nil && isGlobalNamed(src, "UpsertActions")
 			detail := "the per-entry action payloads are emitted in the order of the caller-supplied ActionSet; e.g. ActionSet=[Latency, GameMode] puts latency before game mode on the wire, while a vanilla client reads game mode first"
 			if src != nil && !isActionSet(src) && !canon {
@@ -118,10 +180,10 @@ func runC07(c *Ctx) {
 		}
 		// the bit set is indexed by the canonical table too
 		okBits := false
-		for _, ci := range callsIn(enc, func(nm string, cc *ssa.CallCommon) bool { return strings.HasSuffix(nm, "playerinfo.ContainsAction") }) {
+		for _, ci := range callsInEnc(func(nm string, cc *ssa.CallCommon) bool { return strings.HasSuffix(nm, "playerinfo.ContainsAction") }) {
 			if isActionSet(ci.Common().Args[0]) {
 				if s := elemOf(ci.Common().Args[1]); s != nil && isGlobalNamed(s, "UpsertActions") {
-					for _, sb := range callsIn(enc, func(nm string, cc *ssa.CallCommon) bool { return methodName(cc) == "SetBool" }) {
+					for _, sb := range callsInEnc(func(nm string, cc *ssa.CallCommon) bool { return methodName(cc) == "SetBool" }) {
 						if callValue(sb.Common().Args[len(sb.Common().Args)-1]) == ci.(*ssa.Call) {
 							okBits = true
 						}
